@@ -51,6 +51,10 @@ def _roles(**kw):
     return r
 
 
+PF = "src/polya_finder.py"
+FINDER_DUAL = {"find_polya_tail": "find_polyt_head", "find_polyt_head": "find_polya_tail",
+               "check_entire_tail": "check_entire_head", "check_entire_head": "check_entire_tail"}
+
 FUNCTION_PAIRS = [
     (PV, "shift_polya", "shift_polyt", dict(returns="C"), "polyA / polyT position shift over fake terminal exons"),
     (PV, "PolyAFixer.count_polya_exons", "PolyAFixer.count_polyt_exons", {}, "count of exons made of polyA / polyT"),
@@ -59,6 +63,8 @@ FUNCTION_PAIRS = [
     (PV, "PolyAVerifier.correct_polya_positions", "PolyAVerifier.correct_polyt_positions", {}, "position correction"),
     (PV, "PolyAVerifier.detect_reference_exons_beyond_polya", "PolyAVerifier.detect_reference_exons_before_polyt",
      dict(inline=["isoform_region"], index_args={("MatchEvent", 1): "len(isoform_exons) - 2"}), "missed terminal reference exons"),
+    (PF, "PolyAFinder.find_polya_external", "PolyAFinder.find_polyt_external", dict(extra_dual=FINDER_DUAL), "external tail search windows"),
+    (PF, "PolyAFinder.find_polya_internal", "PolyAFinder.find_polyt_internal", dict(extra_dual=FINDER_DUAL), "internal tail search windows"),
     (IG, "IntronGraph.get_outgoing", "IntronGraph.get_incoming", dict(extra_dual=GRAPH_DUAL), "graph neighbours"),
     (IG, "IntronGraph.signleton_dead_end", "IntronGraph.signleton_dead_start", dict(extra_dual=GRAPH_DUAL, other=["clustered_introns"]),
      "singleton dead ends / starts"),
@@ -86,6 +92,9 @@ BLOCK_PAIRS = [
     (GMC, "IntronPathStorage.fill@loop", "read_end =", "read_start =", "path_tuple =",
      dict(extra_dual=dict(GRAPH_DUAL, polya_info="polya_info", terminal_vertex="starting_vertex", starting_vertex="terminal_vertex"),
           seq=["intron_path", "corrected_exons"], seq_elem={"intron_path": "I"}), "terminal / starting vertex of a read path"),
+    (GMC, "GraphBasedModelConstructor.correct_novel_transcript_ends", "new_transcript_start = None", "new_transcript_end = None", None,
+     dict(coord=["transcript_start", "transcript_end", "read_start", "read_end", "new_transcript_start", "new_transcript_end"],
+          seq=["exon_blocks"], coord_iterables=["read_starts", "read_ends"]), "replacing an unsupported model start / end by a read start / end"),
     (IG, "IntronGraph.collect_terminal_positions@loop", "starting_intron =", "terminating_intron =", None,
      dict(extra_dual=dict(GRAPH_DUAL, polya_info="polya_info", terminating_intron="starting_intron", starting_intron="terminating_intron"),
           seq=["corrected_introns", "corrected_exons"], other=["polyt_starts", "read_starts", "polya_ends", "read_ends"]),
